@@ -144,9 +144,11 @@ Definition holds (c : case) (o : obs) : list string :=
       (if Nat.eqb (nth0 ob 1) (bn (sock_ok e && match hres e with HFile => true | _ => false end)) then []
        else ["transfer_closes_file"]) ++
       (if Nat.eqb (nth0 ob 2) 1 then [] else ["transfer_thread_ends"]) ++
-      (* no exception escapes the thread except where the model says so (a failing send of the final ERROR
-         packet, a failing size computation) *)
-      (if Nat.eqb (nth0 ob 4) (count_act is_uncaught (run_transfer e)) then [] else ["transfer_thread_ends_cleanly"])
+      (* no exception escapes the thread, except that one MAY escape where an environment fault propagates in
+         the modelled code (a failing send of the final ERROR packet, a failing size computation, a failing
+         close of the file).  The escape is permitted there, never demanded: C20 says nothing about it, and a
+         version that catches the fault and ends the thread in an orderly way is at least as good *)
+      (if Nat.leb (nth0 ob 4) (count_act is_uncaught (run_transfer e)) then [] else ["transfer_thread_ends_cleanly"])
   | _, _ => ["observation_shape"]
   end.
 
